@@ -1,8 +1,39 @@
 NOT_YET = {}
+_NATIVE = 'native (not wasm) build of the working tree with release semantics; serde_json stands in for serde-wasm-bindgen; the 12-line body of Rewriter::rewrite is mirrored by the cfg hook'
 CHECKS = {
+ 'C01': {
+  'technique': 'bounded-exhaustive exploration of the program space (grammar derivations, deviation bound k, nesting depth 2) executed on the real rewriter; differential execution in V8 against the input program as reference model, for every environment of a finite value domain',
+  'text': 'Every program derivable from grammar G within the bound (every operation schema x every operand atom in every slot; every statement context x expression context x representative operation with up to k deviations in scope kind / configuration; every schema nested in every operand slot; async and generator contexts) is rewritten by the real code and both input and output are run in fresh V8 contexts for every environment (strings, numbers, null/undefined, logging Proxy objects, mutating or throwing callees). Observations (returned/thrown value and the full log of external effects) must be equal, up to the exemptions the property states. The suite pins ~90 output strings; this explores ~4*10^4 programs x ~14 environments in the quick tier.',
+  'note': _NATIVE + '; run-time values limited to the domain G7; V8 of Node 20 is the reference semantics',
+ },
+ 'C02': {
+  'technique': 'bounded-exhaustive exploration of the program space + corpus of real library files; annotated erasure of AST(content) compared node-by-node with AST(input), with linearity and evaluation-order checks on every temporary',
+  'text': 'For every leaf of families A,B,C,G, 40 seed programs x 3 configs and the corpus of real library files x 3 configs, the instrumentation is erased from the output AST exactly as the property describes and the result must equal the input AST; every temporary must be assigned once, used for exactly one evaluation, in evaluation order; guards must guard the base of their own chain; nothing reserved may survive erasure.',
+  'note': _NATIVE + '; ASTs come from the rewriter\'s own parser; comparison ignores parentheses, spans and literal spelling only',
+ },
+ 'C03': {
+  'technique': 'bounded-exhaustive exploration (every operand atom in every slot of every schema, depth-2 nesting, plus-disabled configurations); static mirror check of every hook call site + execution with recording hooks that recompute the operation from the operands',
+  'text': 'For every hook call site of every explored output the operand list must mirror the operands used inside the first argument (same temporaries / identifiers / literals, same order, spreads from one fresh copy), and at run time, in every environment, recomputing the operation from the operands the hook was handed must give the value it was handed.',
+  'note': _NATIVE + '; template hooks are checked dynamically by in-order containment only (quasis are invisible to a hook), statically exactly',
+ },
+ 'C04': {
+  'technique': 'bounded-exhaustive enumeration of placements (statement ctx x expression ctx x operation x scope x config, k deviations) with a requirement function must() written from the property text, evaluated in lock-step with the annotated erasure',
+  'text': 'Every input node for which the property demands instrumentation (REQUIRED by must()) must be wrapped by the configured hook in the output; documented exclusions are DONTCARE. Covers every statement kind and expression position of the grammar for each kind of operation, which is what exposed the skipped `if` heads / un-braced else branches.',
+  'note': _NATIVE + '; DONTCARE for documented exclusions and for non-arrow parameter defaults',
+ },
  'C13': {
   'technique': 'bounded-exhaustive input/fault enumeration executed on the real rewriter (explicit-state search over token strings, single-token mutants, file-name x map-reference x reader-answer products, config lattice, multi-byte offsets)',
-  'text': 'Every leaf of five finite families (all token strings up to length L over the rewriter\'s trigger tokens, every single-token mutant/prefix of 40 seed programs, the full product of file names x sourceMappingURL kinds x reader answers x settings, the option-presence lattice plus malformed configs, every byte offset of a multi-byte character in leading text) is executed against the real code under catch_unwind with a watchdog; a panic, abort or timeout anywhere is a violation. Exhaustive within the stated alphabets and bounds, so it reaches the unwrap/index paths the suite never feeds.',
-  'note': 'native (not wasm) build with release semantics; serde_json stands in for serde-wasm-bindgen; the 12-line body of Rewriter::rewrite is mirrored by the cfg hook; deep-nesting exhaustion is out of scope per the property',
+  'text': 'Every leaf of five finite families (all token strings up to length L over the rewriter\'s trigger tokens, every single-token mutant/prefix of 40 seed programs, the full product of file names x sourceMappingURL kinds x reader answers x settings, the option-presence lattice plus malformed configs, every byte offset of a multi-byte character in leading text) is executed against the real code under catch_unwind with a watchdog; a panic, abort or timeout anywhere is a violation.',
+  'note': _NATIVE + '; deep-nesting exhaustion is out of scope per the property',
+ },
+ 'C15': {
+  'technique': 'bounded-exhaustive enumeration of statement orders (all ordered selections of L statements from a 14-statement alphabet x verbosity x file) + families A,C; metrics compared with hook call sites counted by the annotated erasure',
+  'text': 'For every ordering of instrumented and inspected-but-not-instrumented statements, under every verbosity, the reported count must equal the number of hook call sites in the output AST and the debug breakdown must partition it by the tag of the input operation under each hook.',
+  'note': _NATIVE + '; metrics shaping reached through the cfg hook',
+ },
+ 'C16': {
+  'technique': 'explicit-state search over call histories: all sequences up to length h over a 20-symbol call alphabet, each executed in its own fresh process, invariant checked after every call against a fresh-process reference',
+  'text': 'Every history (modified / not-modified / syntax-error / cancelled / chained / two-comment / literal-heavy / multi-block inputs on two same-config rewriter instances and one default-prefix instance) up to length h, plus every call repeated 25x, runs in its own process; each call must return exactly what a single call in a fresh process returns (content, metrics, literal set, error text).',
+  'note': _NATIVE + '; a native process stands in for the wasm instance',
  },
 }
